@@ -1,49 +1,62 @@
 """C22 -- equivalent-stress criteria return consistent values and derivatives.
-Engine S: Drucker 1949 (value / normal / second derivative, N=1,2,3, decision tree on the seps test), Cazacu 2004 isotropic and
-sigmaeq are traced from /repo; Coq proves: traced value = documented formula (1D,2D,3D), the variants return the same value
-(1D, 2D, 3D normal variant), zeros below the threshold, and in 1D that the returned normal is the gradient of the returned value
-(Coquelicot auto_derive + field).  Everything else (second derivatives, 2D/3D normals, Cazacu 2001/2004, Hosford) is checked BY
-EXECUTION of the real double code against central finite differences -- labelled as such in the evidence; it is also the
-failing-input search when an obligation breaks."""
-import os
+Engine S (symtrace) + Coquelicot.  Three tracers instantiate the unmodified templates of /repo with the symbolic scalar:
+  trace.cxx      Drucker 1949 / Cazacu 2004 iso / sigmaeq, monolithic (first round: value documented, variants, 1D normal)
+  trace_inv.cxx  INVARIANT-BASED criteria (Drucker 1949, Cazacu 2001, Cazacu 2004 iso/ortho), N = 1,2,3, with cut points at the
+                 results of the library calls (s|s, det, computeJ3[Second]Derivative, computeJ2O/J3O and derivatives); Coq proves for
+                 each criterion and N: variants agree, normal = gradient of the value, second derivative = Jacobian of the normal
+                 (component-wise is_derive, on the open set where the criterion is smooth), symmetry, degree-one homogeneity
+  trace_eig.cxx  EIGEN-BASED criteria: the public Hosford functions on a diagonal stress (a = 2, 6, 8): documented value,
+                 gradient, Jacobian (ties included), homogeneity, Hosford(2) = von Mises; the assembly of the second derivative from the
+                 eigen-data (Hosford, Barlat), every tie branch against the specification formula
+Quick: N = 1, 2, a = 2, 6, assembly 2D and Hosford 3D.  Thorough adds N = 3, a = 8, Barlat's 3D eigenvector terms.
+Everything that is not proved (2D/3D Hosford and Barlat through the eigen solvers, Mohr-Coulomb, ...) is checked BY EXECUTION of the
+real double code against central finite differences (trace run, driver run) -- labelled as such; it is also the failing-input search."""
+import math, os, re
+from concurrent.futures import ThreadPoolExecutor, wait, FIRST_COMPLETED
 from vlib import guarded_main
 
 SUPPORT = ["src/Exception/ContractViolation.cxx", "src/Exception/TFELException.cxx"]
+INV = ["drk", "c01", "c4i", "c4o"]
+LODET = 20.0 * math.pi / 180  # lodeT of driver.cxx
 
 
 def fl(t):
     return [float(x) for x in t.split()[1:]]
 
 
-def main(c):
-    exe = c.cxx("trace", ["trace.cxx"], SUPPORT)
-    gen = os.path.join(c.work, "coq", "C22_gen.v")
-    os.makedirs(os.path.dirname(gen), exist_ok=True)
-    rc, out, err = c.run([exe, "gen", gen, str(c.seed)])
-    if rc != 0:
-        c.report("trace", "tracer failed on /repo's headers: " + err[-500:], {"stderr": err[-3000:]}, False)
-        return
-    nag = 0
-    for l in out.splitlines():
-        if l.startswith("AGREE"):
-            nag += 1
-            c.count(1, ("agree", l))
-            if l.startswith("AGREE-FAIL"):
-                c.report("agree:" + l.split()[1], "traced expression and double instantiation disagree: " + l, {"line": l, "seed": c.seed}, True)
-    c.trusted("engine S tracer (cxx/sym/sym.hxx path oracle + printer), g++ template instantiation with Sym; std::pow traced as Rpower, "
-              "std::cbrt as VLib.Rcbrt", "agreement Sym decision tree vs double instantiation on %d seeded cases (above and below the seps threshold)" % nag,
-              "central finite differences (step 1e-5 |sigma|) as the independent statement of 'is the gradient of' for everything not proved in Coq")
-    res = c.coq([gen, "C22Spec.v", "C22Proofs.v", "Properties_C22.v"], timeout=900)
+def nthm(c, fn):
+    try:
+        return len(re.findall(r"^Theorem ", open(os.path.join(c.dir, "coq", fn)).read(), flags=re.M))
+    except OSError:
+        return 0
 
-    # ---- execution of the real code: values, normals, second derivatives vs finite differences
-    n = c.pick(12, 150)
-    rc, out, err = c.run([exe, "run", str(c.seed), str(n)])
-    if rc != 0:
-        c.report("run", "driver failed: " + err[-500:], {"stderr": err[-3000:]}, False)
-        return
-    failed_classes = {}
-    pending = []
-    ncase = 0
+
+def run_jobs(c, jobs, nworkers=4):
+    """jobs: name -> (files, deps).  Runs c.coq(files) for every job whose dependencies succeeded, at most nworkers at a time.
+    Returns name -> CoqResult (None for jobs skipped because a dependency failed)."""
+    results, running, done = {}, {}, set()
+    pending = dict(jobs)
+    with ThreadPoolExecutor(max_workers=nworkers) as ex:
+        while pending or running:
+            for name in sorted(pending, key=lambda n: jobs[n][2]):
+                files, deps, _prio = pending[name]
+                if any(d in results and (results[d] is None or not results[d].ok) for d in deps):
+                    results[name] = None
+                    del pending[name]
+                elif all(d in done for d in deps) and len(running) < nworkers:
+                    running[ex.submit(c.coq, files, 2400)] = name
+                    del pending[name]
+            if not running:
+                continue
+            fin, _ = wait(list(running), return_when=FIRST_COMPLETED)
+            for f in fin:
+                name = running.pop(f)
+                results[name] = f.result()
+                done.add(name)
+    return results
+
+
+def process_cases(c, out, source, failed_classes, pending, stats):
     for l in out.splitlines():
         if l.startswith("MISES"):
             t = l.split()
@@ -52,24 +65,53 @@ def main(c):
             if abs(a - b) > 1e-9 * max(abs(a), abs(b)):
                 c.report("mises:N%s:%s" % (t[1], t[2]), "Hosford(a=2) = %.17g differs from sigmaeq = %.17g" % (b, a), {"line": l}, True)
             continue
+        if l.startswith("BARLATID"):
+            a, b, d = l.split("|")
+            t = a.split()
+            N, cid = t[1], t[2]
+            hb, hh = [float(x) for x in b.split()], [float(x) for x in d.split()]
+            n = {"1": 3, "2": 4, "3": 6}[N]
+            c.count(1, ("barlatid", N, cid))
+            stats["barlatid"] = stats.get("barlatid", 0) + 1
+            sc = [abs(hh[0])] * 1 + [max(abs(x) for x in hh[1:1 + n])] * n + [max(abs(x) for x in hh[1 + n:])] * (n * n)
+            e = max(abs(x - y) / s for x, y, s in zip(hb, hh, sc))
+            if not e <= 1e-8:
+                c.report("barlatid:N%s:%s" % (N, cid), "Barlat with both transformations = deviatoric projector differs from Hosford (a=%s, N=%s, %s): relative "
+                         "difference %.3g" % (t[3], N, cid, e), {"line": l, "how": "props/C22/driver.cxx run (Jacobi eigen solver)"}, True)
+            continue
         if not l.startswith("CASE"):
             continue
         f = [x.strip() for x in l.split("|")]
         _, crit, N, cid = f[0].split()
         params = f[1]
-        sig = fl(f[2])
-        seq = fl(f[3])
-        hom = fl(f[4])[0]
+        sig, seq, hom = fl(f[2]), fl(f[3]), fl(f[4])[0]
         n1, n2, fdn, dn, fdd = fl(f[5]), fl(f[6]), fl(f[7]), fl(f[8]), fl(f[9])
+        aux = fl(f[10])[0] if len(f) > 10 else 0.0
         m = len(sig)
-        ncase += 1
+        stats["cases"] = stats.get("cases", 0) + 1
         c.count(1, (crit, N, cid, tuple(sig)))
-        if ncase % 29 == 1:
+        if stats["cases"] % 97 == 1:
             c.sample({"criterion": crit, "N": int(N), "params": params[:60], "sigma": sig, "seq": seq[0], "normal": n1})
+        tie = cid.startswith("tie-")
+        if tie:
+            stats["tie"] = stats.get("tie", 0) + 1
+        # tolerance of the second-derivative comparison (relative to the largest entry)
+        tol_dn = 1e-4
+        skip_dn = False
+        if crit in ("hosford", "barlat") and tie:
+            tol_dn = 2e-3   # default solver: ties split by ~1e-9, divided differences with tiny denominators
+        if crit == "mohrcoulomb":
+            if abs(abs(aux) - LODET) < 0.01:
+                skip_dn = True   # K is only C1 across |lode| = lodeT: a finite difference straddling it means nothing
+            if abs(aux) > LODET:
+                stats["mc_corner"] = stats.get("mc_corner", 0) + 1
+            if abs(aux) > 29.9 * math.pi / 180:
+                tol_dn = 5e-2    # exact apex: terms in 1/cos^2(3 lode) ~ 1e14 cancel; two digits are lost (see NOTES)
+                stats["mc_apex"] = stats.get("mc_apex", 0) + 1
         bad = []
         if max(seq) - min(seq) > 1e-11 * abs(seq[0]):
             bad.append(("value", "value/normal/second-derivative variants return %s" % seq))
-        if abs(hom - 2.5 * seq[0]) > 1e-9 * abs(hom):
+        if hom == hom and abs(hom - 2.5 * seq[0]) > 1e-9 * abs(hom):
             bad.append(("homogeneity", "seq(2.5 sigma) = %.17g but 2.5 seq(sigma) = %.17g" % (hom, 2.5 * seq[0])))
         sn = max(map(abs, n1))
         e = max(abs(a - b) for a, b in zip(n1, n2))
@@ -80,7 +122,7 @@ def main(c):
             bad.append(("n", "normal differs from the finite-difference gradient of the value by %.3g (entries of size %.3g)" % (e, sn)))
         sd = max(map(abs, dn))
         e = max(abs(a - b) for a, b in zip(dn, fdd))
-        if e > 1e-4 * sd:
+        if not skip_dn and e > tol_dn * sd:
             bad.append(("dn", "second derivative differs from the finite-difference gradient of the normal by %.3g (entries of size %.3g)" % (e, sd)))
         e = max(abs(dn[i * m + j] - dn[j * m + i]) for i in range(m) for j in range(m))
         if e > 1e-9 * sd:
@@ -88,13 +130,75 @@ def main(c):
         for (q, what) in bad:
             key = "%s:%s:N%s:%s" % (crit, q, N, cid)
             rep = {"criterion": crit, "N": int(N), "parameters": params, "sigma": sig, "seq": seq, "normal": n1, "fd_normal": fdn,
-                   "second_derivative": dn, "fd_second_derivative": fdd, "how": "props/C22/trace.cxx run (central differences, step 1e-5 |sigma|)"}
+                   "second_derivative": dn, "fd_second_derivative": fdd, "lode": aux,
+                   "how": "props/C22/%s run (central differences, step 1e-5 |sigma|)" % source}
             msg = "%s (N=%s, parameters %s, sigma=%s): %s" % (crit, N, params[:80], sig, what)
-            if cid.startswith("corpus"):
+            if not cid.startswith("rand"):
                 failed_classes.setdefault((crit, q, N), 0)
                 c.report(key, msg, rep, True)
             else:
                 pending.append(((crit, q, N), key, msg, rep))
+
+
+def main(c):
+    # ---------------------------------------------------------------- tracers and drivers
+    with ThreadPoolExecutor(max_workers=4) as ex:
+        fb = {k: ex.submit(c.cxx, k, [k + ".cxx"], SUPPORT) for k in ("trace", "trace_inv", "trace_eig", "driver")}
+        exe = {k: f.result() for k, f in fb.items()}
+    wd = os.path.join(c.work, "coq")
+    os.makedirs(wd, exist_ok=True)
+    gens = {"trace": os.path.join(wd, "C22_gen.v"), "trace_inv": os.path.join(wd, "C22inv_gen.v"), "trace_eig": os.path.join(wd, "C22eig_gen.v")}
+    nag = 0
+    for k, gen in gens.items():
+        args = [exe[k], "gen", gen, str(c.seed)] + (["3"] if k == "trace_inv" else [])
+        rc, out, err = c.run(args)
+        if rc != 0:
+            c.report(k, "tracer %s failed on /repo's headers: %s" % (k, err[-500:]), {"stderr": err[-3000:]}, False)
+            return
+        for l in out.splitlines():
+            if l.startswith("AGREE"):
+                nag += 1
+                c.count(1, ("agree", k, l))
+                if l.startswith("AGREE-FAIL"):
+                    c.report("agree:" + l.split()[1], "traced expression and double instantiation disagree: " + l, {"line": l, "seed": c.seed}, True)
+            if l.startswith("FACTOR-FAIL"):
+                c.report("factor:" + l.split()[1], "substituting the cut quantities back does not give the traced DAG: " + l, {"line": l}, False)
+    c.trusted("engine S tracer (cxx/sym/sym.hxx path oracle + printer; node substitution for the cut points in props/C22/trace_inv.cxx), g++ template "
+              "instantiation with Sym; std::pow traced as Rpower (integer exponents as pow), std::cbrt as VLib.Rcbrt",
+              "agreement Sym decision tree vs double instantiation on %d seeded cases (above and below the thresholds, tie patterns for the eigen-based functions)" % nag,
+              "central finite differences (step 1e-5 |sigma|) as the independent statement of 'is the gradient of' for everything not proved in Coq",
+              "for the tensor-level second derivative of Hosford / Barlat in 2D/3D: the standard formula for the Hessian of an isotropic function from the "
+              "eigen-data (C22EigSpec.v iso_hess) is the specification; that it is the Frechet derivative is assumed mathematics (checked by finite differences only)")
+    # ---------------------------------------------------------------- Coq jobs (at most 4 at a time)
+    Ns = c.pick([1, 2], [1, 2, 3])
+    As = c.pick([6, 2], [6, 2, 8])
+    jobs = {
+        "old": ([gens["trace"], "C22Spec.v", "C22Proofs.v", "Properties_C22.v"], [], 5),
+        "invbase": ([gens["trace_inv"], "C22InvSpec.v", "C22InvTac.v", "C22InvCrit.v", "C22InvStatements.v"], [], 0),
+        "eigbase": ([gens["trace_eig"], "C22EigSpec.v", "C22EigTac.v", "C22EigStatements.v", "C22EigAsmCuts.v", "C22EigAsmTac.v"], ["invbase"], 1),
+        "asm3h": (["C22Eig_asm3h.v", "Properties_C22eig_asm3h.v"], ["eigbase"], 2),
+        "asm2": (["C22Eig_asm2.v", "Properties_C22eig_asm2.v"], ["eigbase"], 6),
+    }
+    if not c.quick():
+        jobs["asm3b"] = (["C22Eig_asm3b.v", "Properties_C22eig_asm3b.v"], ["eigbase"], 2)
+    for a in As:
+        jobs["hos%d" % a] = (["C22Eig_hos%d.v" % a, "Properties_C22eig_hos%d.v" % a], ["eigbase"], 4)
+    for N in Ns:
+        jobs["cuts%d" % N] = (["C22InvCuts%d.v" % N], ["invbase"], 3 - N)
+        for X in INV:
+            jobs["inv_%s_%d" % (X, N)] = (["C22Inv_%s_%d.v" % (X, N), "Properties_C22inv_%s_%d.v" % (X, N)], ["cuts%d" % N], 10 - 3 * N)
+    ex = ThreadPoolExecutor(max_workers=1)
+    fcoq = ex.submit(run_jobs, c, jobs, 4)
+
+    # ---------------------------------------------------------------- execution of the real code (while Coq runs)
+    n = c.pick(12, 150)
+    failed_classes, pending, stats = {}, [], {}
+    for (k, src) in (("trace", "trace.cxx"), ("driver", "driver.cxx")):
+        rc, out, err = c.run([exe[k], "run", str(c.seed), str(n if k == "trace" else c.pick(6, 60))], timeout=3000)
+        if rc != 0:
+            c.report("run:" + k, "driver failed: " + err[-500:], {"stderr": err[-3000:]}, False)
+            continue
+        process_cases(c, out, src, failed_classes, pending, stats)
     extra = 0
     for (cl, key, msg, rep) in pending:
         if cl in failed_classes:
@@ -105,14 +209,53 @@ def main(c):
             c.report(key + ":seed%d" % c.seed, msg, rep, True)
     if extra:
         c.notes.append("%d further seeded cases fail in classes already reported on a corpus case: %s" % (extra, {"%s:%s:N%s" % k: v for k, v in failed_classes.items() if v}))
-    c.coverage["rule"] = ("Coq: all reals (Drucker value 1D/2D/3D, variants, 1D normal = gradient). Execution: 3 corpus + %d seeded stresses x N=1,2,3 x "
-                          "{Drucker 1949, Cazacu 2001, Cazacu 2004 iso/ortho, Hosford a=2,6,8}: same value, homogeneity, normal and second derivative "
-                          "vs central finite differences, symmetry" % n)
+    results = fcoq.result()
+    ex.shutdown()
+    c.coverage["rule"] = (
+        "Coq, all reals: invariant-based criteria {Drucker 1949, Cazacu 2001, Cazacu 2004 iso/ortho} x N=%s: variants agree, normal = gradient, second "
+        "derivative = Jacobian (every entry), symmetry, homogeneity, on {above threshold, J2^3 - c J3^2 > 0 resp. J2 > 0 and J2^(3/2) - c J3 > 0}; Hosford "
+        "a=%s on diagonal stresses (ties included): value documented, gradient, Jacobian, symmetry, homogeneity, a=2 is von Mises; assembly of the Hosford "
+        "/ Barlat second derivative from the eigen-data, every tie branch (2D%s). Execution: corpus (3 generic + %d tie patterns and corner-zone points "
+        "per dimension) + seeded stresses x N=1,2,3 x {Drucker, Cazacu 2001/2004, Hosford and Barlat with default and Jacobi eigen solvers, Mohr-Coulomb}: "
+        "same value, homogeneity, normal and second derivative vs central finite differences, symmetry; Barlat(projector) = Hosford"
+        % (Ns, As, ", 3D" if c.quick() else ", 3D incl. Barlat", stats.get("tie", 0)))
     c.coverage["traces_validated_against_impl"] = nag
-    c.coverage["executions_against_finite_differences"] = ncase
-    if not res.ok:
+    c.coverage["executions_against_finite_differences"] = stats.get("cases", 0)
+    c.coverage["executions_on_tie_patterns"] = stats.get("tie", 0)
+    c.coverage["mohr_coulomb_executions_in_corner_zones"] = stats.get("mc_corner", 0)
+    c.coverage["barlat_projector_vs_hosford"] = stats.get("barlatid", 0)
+    if stats.get("mc_apex"):
+        c.notes.append("Mohr-Coulomb at the exact apex (|lode| = 30 deg, %d cases): second derivative compared with tolerance 5e-2 (catastrophic cancellation "
+                       "of terms in 1/cos^2(3 lode) in the code; see NOTES.md)" % stats["mc_apex"])
+    # ---------------------------------------------------------------- broken obligations
+    broken = []
+    for name in sorted(jobs):
+        res = results.get(name)
+        if res is None:
+            for fn in jobs[name][0]:
+                if isinstance(fn, str) and os.path.basename(fn).startswith("Properties"):
+                    c.coverage["obligations"] += nthm(c, fn)
+            c.notes.append("Coq job %s skipped: a prerequisite failed" % name)
+            continue
+        if not res.ok:
+            broken.append((name, res))
+            compiled = [x[0] for x in res.files]
+            for fn in jobs[name][0]:
+                b = os.path.basename(fn)
+                if b.startswith("Properties") and b not in compiled:
+                    c.coverage["obligations"] += nthm(c, b)
+            for (fn, line, thm, msg) in res.failed:
+                if line and not fn.startswith("Properties"):
+                    try:
+                        src = open(os.path.join(c.dir, "coq", fn)).read().splitlines()
+                        lem = [m.group(1) for i, l in enumerate(src) for m in [re.match(r"Lemma (\w+)", l)] if m and i + 1 <= line]
+                        if lem:
+                            c.notes.append("broken lemma: %s (%s line %d)" % (lem[-1], fn, line))
+                    except OSError:
+                        pass
+    for (name, res) in broken:
         if any(v[3] for v in c.violations) or c.known_hits:
-            c.notes.append("proof obligations failed: %s; concrete failing inputs reported above" % [f[2] or f[3][:80] for f in res.failed])
+            c.notes.append("proof obligations failed in job %s: %s; concrete failing inputs reported above" % (name, [f[2] or f[3][:80] for f in res.failed]))
         else:
             c.coq_failures(res, None)
 
